@@ -76,7 +76,7 @@ def groups(tier, seed):
             PermMults=set())
         add('couplings-cubic', Classes={'Cubic'}, MaxN=4, MaxShift=0, Queries=ALLQ, MultiMod=401, PermMults=set())
         add('multispecies', Classes={'Multi'}, MaxL=3, MaxN=6, Queries=ALLQ - {'multi'}, DxCap=1, PermMults=set())
-        add('irregular', Classes={'Irregular'}, MaxL=3, MaxN=6, Queries=ALLQ, DxCap=2, MultiMod=61, IrrMod=101, PermMults=set())
+        add('irregular', Classes={'Irregular'}, MaxL=3, MaxN=6, Queries=ALLQ, DxCap=2, MultiMod=61, IrrMod=211, PermMults=set())
         add('helical', Classes={'Helical'}, MaxN=12, Queries=ALLQ, MultiMod=61)
         # enlarge_mps_unit_cell / with_grouped_sites applied to built lattices of every class, all queries again
         add('derive', Classes={'Chain', 'Ladder', 'Square', 'Honeycomb', 'Multi', 'Irregular', 'Helical'}, MaxL=3, MaxN=6,
@@ -336,8 +336,11 @@ class Replayer:
         rows = l['rows']
         helical = cfg['cls'] == 'Helical'
         twisted_open = cfg['bc'][0] == 'open' and any(x != 0 for x in cfg['shift'])
-        extra = dict(nops=len(ops), twisted_open=twisted_open)
-        ijkl, latidx, shape = lat.possible_multi_couplings(ops)
+        extra = dict(nops=len(ops), twisted_open=twisted_open, negshape=min(l['shape']) < 0)
+        try:
+            ijkl, latidx, shape = lat.possible_multi_couplings(ops)
+        except Exception as e:
+            return self.fail(st, 'multi', 'exception', traceback.format_exc(limit=3), 'rows', exc=type(e).__name__, **extra)
         if tuple(int(x) for x in shape) != tuple(l['shape']):
             return self.fail(st, 'multi', 'coupling_shape', list(shape), l['shape'], **extra)
         cs, csmin = lat.multi_coupling_shape(np.array([o[1] for o in ops], dtype=np.intp).reshape(len(ops), len(cfg['Ls'])))
